@@ -20,6 +20,10 @@ OPS = ["str", "pairs", "dot_bracket", "fcfs", "all_dot_brackets", "elements", "w
 EXTRA_OPS = ["convert_none", "convert_default", "convert_raises", "convert_notopt", "sequence", "pairs_dict", "roundtrip"]
 
 
+# public calls that are compared with fresh objects only (not operations of either Lean object model)
+HARNESS_ONLY_OPS = ["paired_5to3", "paired_all"]
+
+
 def eq_op(seq, pairs):
     return "eq~%s~%s" % (seq, ".".join(map(str, pairs)))
 
@@ -77,6 +81,8 @@ def answer(b, op):
             r = BpSeq.from_string(str(b))
             return "%s|%s" % (r, r == b)
         return call(rt)
+    if op in HARNESS_ONLY_OPS:
+        return call(lambda: ",".join("%d:%d" % (e.index_, e.pair) for e in b.paired(op == "paired_5to3")))
     if op.startswith("eq~"):
         _, s2, p2 = op.split("~")
         other = g1.mk_bpseq(s2, [int(x) for x in p2.split(".")] if p2 else [])
@@ -85,8 +91,17 @@ def answer(b, op):
 
 
 def real(case):
-    seq, pairs, ops = case
+    seq, pairs, ops = case[:3]
     b = g1.mk_bpseq(seq, pairs)
+    derived = None
+    if len(case) > 3 and case[3]:
+        # the object under test is itself the RESULT of derivations (they must hand out objects that are pure too);
+        # what a fresh copy of it is, is read off its entries when it is handed out
+        for name in case[3]:
+            b = getattr(b, name)()
+        seq = "".join(e.sequence for e in b.entries)
+        pairs = [e.pair for e in b.entries]
+        derived = (seq, pairs)
     got, fresh = [], []
     for op in ops:
         got.append(answer(b, op))
@@ -95,7 +110,7 @@ def real(case):
     final_pairs = call(lambda: ",".join("%d:%d" % (i, b.pairs[i]) for i in sorted(b.pairs)))
     f = g1.mk_bpseq(seq, pairs)
     db = call(lambda: f.dot_bracket.structure)
-    out = {"got": got, "fresh": fresh, "final_text": final_text, "final_pairs": final_pairs, "db": db}
+    out = {"got": got, "fresh": fresh, "final_text": final_text, "final_pairs": final_pairs, "db": db, "derived": derived}
     # first sentence of the property, on a fresh object
     f2 = g1.mk_bpseq(seq, pairs)
     nopk = call(lambda: f2.without_pseudoknots())
@@ -139,6 +154,16 @@ def run(ctx):
     seeds = [g1.from_dbn("(.[.).]"), g1.from_dbn("((..)).(.)"), g1.from_dbn("(([..))..].(.)"), g1.from_dbn("...."),
              g1.from_dbn("(.[[[.)..]]]", "gCaUNcgau?Aa")]
     for s, p in seeds:
+        for x in HARNESS_ONLY_OPS:
+            for op in OPS:
+                cases.append((s, p, [x, op, x]))
+                cases.append((s, p, [op, x, x]))
+        for chain in (("without_pseudoknots",), ("without_isolated",), ("without_pseudoknots", "without_isolated")):
+            for op in OPS:
+                cases.append((s, p, [op, "str", op], chain))
+                cases.append((s, p, ["without_isolated", op, "str"], chain))
+                cases.append((s, p, ["without_pseudoknots", op, "str"], chain))
+    for s, p in seeds:
         for x in EXTRA_OPS + eq_variants(s, p):
             for op in OPS:
                 cases.append((s, p, [x, op]))
@@ -165,13 +190,37 @@ def run(ctx):
             cases.append((s, p, ops))
         # bias: a removal first, then queries (where aliasing would show)
         cases.append((s, p, [rng.choice(["without_isolated", "without_pseudoknots"])] + [rng.choice(OPS) for _ in range(k - 1)]))
+        r = rng.random()
+        if r < 0.25:
+            # the iterator-returning query somewhere in the history
+            ops = [rng.choice(OPS) for _ in range(k)]
+            ops.insert(rng.randrange(len(ops) + 1), rng.choice(HARNESS_ONLY_OPS))
+            if rng.random() < 0.5:
+                ops.append(rng.choice(HARNESS_ONLY_OPS))
+            cases.append((s, p, ops))
+        elif r < 0.5:
+            # a history on an object that is itself the result of one or two derivations
+            chain = rng.choice([("without_pseudoknots",), ("without_isolated",), ("without_pseudoknots", "without_isolated"),
+                                ("without_isolated", "without_pseudoknots")])
+            cases.append((s, p, [rng.choice(OPS) for _ in range(k)], chain))
     outs = parallel_map(real, cases)
     reqs, idx = [], []
-    for ci, ((seq, pairs, ops), o) in enumerate(zip(cases, outs)):
+    # a derived object is judged as the structure it holds when it is handed out
+    def subject(c, o):
+        return (o["derived"][0], o["derived"][1]) if o.get("derived") else (c[0], c[1])
+
+    def mk_inp(c, o):
+        d = {"seq": c[0], "pairs": c[1], "ops": c[2]}
+        if o.get("derived"):
+            d["derived_by"] = list(c[3])
+            d["subject"] = {"seq": o["derived"][0], "pairs": o["derived"][1]}
+        return d
+    for ci, (c, o) in enumerate(zip(cases, outs)):
+        (seq, pairs), ops = subject(c, o), c[2]
         ps = g1.pstr(pairs)
         db = o["db"][1] if o["db"][0] == "ok" else "err:" + o["db"][1]
         reqs.append(["ss.history", seq, ps, db, ",".join(x for x in ops if x in OPS)]); idx.append((ci, "hist"))
-        reqs.append(["ss.history_ext", seq, ps, db, ",".join(ops)]); idx.append((ci, "hist_ext"))
+        reqs.append(["ss.history_ext", seq, ps, db, ",".join(x for x in ops if x not in HARNESS_ONLY_OPS)]); idx.append((ci, "hist_ext"))
         if "nopk_text" in o:
             reqs.append(["ss.nopk", seq, ps, db]); idx.append((ci, "nopk"))
         if "noiso_text" in o:
@@ -188,10 +237,13 @@ def run(ctx):
         return "\n".join("%d %s %d" % (i + 1, c, p) for i, (c, p) in enumerate(zip(s, pl)))
 
     for (ci, what), r in zip(idx, resp):
-        seq, pairs, ops = cases[ci]
         o = outs[ci]
-        inp = {"seq": seq, "pairs": pairs, "ops": ops}
+        (seq, pairs), ops = subject(cases[ci], o), cases[ci][2]
+        inp = mk_inp(cases[ci], o)
         if what == "hist_ext":
+            keep = [i for i, x in enumerate(ops) if x not in HARNESS_ONLY_OPS]
+            o = dict(o, got=[o["got"][i] for i in keep], fresh=[o["fresh"][i] for i in keep])
+            ops = [ops[i] for i in keep]
             # the FULL history on the extended object model, compared step by step with the real object's own
             # answers (state machine vs object) and with fresh objects (what the theorem says the model answers)
             model = []
@@ -236,13 +288,16 @@ def run(ctx):
         else:
             if ent_text("ok " + r) != o["noiso_text"]:
                 res.fail("corr", "C12:without_isolated", inp, "impl=%r model=%r" % (o["noiso_text"], ent_text("ok " + r)))
-    for (seq, pairs, ops), o in zip(cases, outs):
+    for c, o in zip(cases, outs):
+        (seq, pairs), ops = subject(c, o), c[2]
         npairs = sum(1 for p in pairs if p)
         res.case((tuple(pairs), tuple(ops)), nontrivial=npairs > 0 and len(ops) >= 2)
         res.count("len%d" % len(ops))
         for op in ops:
             res.count("op:" + op.split("~")[0])
-        inp = {"seq": seq, "pairs": pairs, "ops": ops}
+        if o.get("derived"):
+            res.count("subject-is-a-derived-object")
+        inp = mk_inp(c, o)
         for k, (g, f) in enumerate(zip(o["got"], o["fresh"])):
             if tuple(g) != tuple(f):
                 first_mut = next((x for x in ops[:k] if x.startswith("without_")), ops[0])
@@ -268,8 +323,9 @@ def shrink(ctx, f):
     inp = f["input"]
 
     def bad(ops):
-        o = real((inp["seq"], inp["pairs"], ops))
-        exp = "\n".join("%d %s %d" % (i + 1, c, p) for i, (c, p) in enumerate(zip(inp["seq"], inp["pairs"])))
+        o = real((inp["seq"], inp["pairs"], ops, tuple(inp.get("derived_by", []))))
+        sub = inp.get("subject", inp)
+        exp = "\n".join("%d %s %d" % (i + 1, c, p) for i, (c, p) in enumerate(zip(sub["seq"], sub["pairs"])))
         return any(tuple(g) != tuple(fr) for g, fr in zip(o["got"], o["fresh"])) or o["final_text"] != ("ok", exp)
     ops = ddmin(inp["ops"], bad) if len(inp["ops"]) > 1 else inp["ops"]
     g = dict(f)
@@ -279,7 +335,9 @@ def shrink(ctx, f):
 
 def replay(ctx, data):
     inp = data["input"]
-    o = real((inp["seq"], inp["pairs"], inp["ops"]))
+    o = real((inp["seq"], inp["pairs"], inp["ops"], tuple(inp.get("derived_by", []))))
+    if inp.get("derived_by"):
+        print("object under test = result of", " . ".join(inp["derived_by"]), "on the given structure")
     for k, op in enumerate(inp["ops"]):
         print(op, "object:", o["got"][k], "fresh:", o["fresh"][k])
     print("final text:", o["final_text"])
